@@ -524,7 +524,7 @@ func cbMintTicket(p *cbPre, ts cbTicketSpec) (types.TicketEnvelope, cbTicket) {
 		proof[64+(ts.Pos&15)] ^= 0x10
 	}
 	var env types.TicketEnvelope
-	env.Attempt = types.TicketAttempt(att)
+	env.Attempt = types.TicketAttempt(uint64(ts.Attempt)) // the attempt is a natural on the wire: values above 255 keep their upper part (the proof signs the low octet)
 	copy(env.Signature[:], proof)
 	var t cbTicket
 	copy(t.ID[:], proof[:32])
